@@ -1038,6 +1038,8 @@ func runC20(c *Ctx) int {
 	run.Floor("failing_results_observed", int64(c.Pick(50000, 1000000)))
 	run.Floor("series_checked", int64(c.Pick(8000, 150000)))
 	c20CLI(c, run)
+	c20Pump(c, run)
+	run.Floor("pump_results_fed", 30000)
 	run.Floor("cli_attacks_scraped", int64(c.Pick(2, 8)))
 	run.Floor("histogram_bucket_checks", int64(c.Pick(30000, 500000)))
 	run.Floor("fail_counter_series_checked", int64(c.Pick(2000, 50000)))
